@@ -298,6 +298,7 @@ func (ex *Exec) callFuncInner(p *Path, fn *types.Func, recv *Value, args []Value
 		}
 		// effectful library call: results unknown, modelled heap untouched (effects are on library objects)
 		ex.havocked[full] = true
+		ex.havocSliceArgs(p, call)
 		var out []Value
 		for i := 0; i < sig.Results().Len(); i++ {
 			rt := sig.Results().At(i).Type()
@@ -319,7 +320,39 @@ func (ex *Exec) callFuncInner(p *Path, fn *types.Func, recv *Value, args []Value
 		}
 		p.events = append(p.events, ev)
 	}
+	if !ex.w.IsRepoFunc(fn) {
+		ex.havocSliceArgs(p, call)
+	}
 	return ex.havocCall(p, fn, !ex.w.IsRepoFunc(fn))
+}
+
+// havocSliceArgs: a library function may reorder or overwrite the elements of a slice it is handed (sort.Slice,
+// copy-like helpers); the length of the caller's slice value cannot change.
+func (ex *Exec) havocSliceArgs(p *Path, call *ast.CallExpr) {
+	if call == nil || ex.inContract() {
+		return
+	}
+	for _, a := range call.Args {
+		id, ok := unparen(a).(*ast.Ident)
+		if !ok {
+			continue
+		}
+		obj, _ := ex.info.Uses[id].(*types.Var)
+		if obj == nil {
+			continue
+		}
+		if _, isSlice := obj.Type().Underlying().(*types.Slice); !isSlice {
+			continue
+		}
+		cur, ok := p.vars[obj]
+		if !ok {
+			continue
+		}
+		v := Value{ex.c.Fresh("libw:"+obj.Name(), ex.c.SortOf(cur.Ty)), cur.Ty}
+		p.Assume(eq(ex.c.sliceLen(v), ex.c.sliceLen(cur)))
+		p.Assume(ex.c.typeInvariant(v))
+		p.vars[obj] = v
+	}
 }
 
 func (ex *Exec) emittedPkg(fn *types.Func) bool {
